@@ -116,6 +116,16 @@ CHECKS = {
             'copied, unique type <molecule>_<resid>; a pair potential iff listed both ways and graph distance > separation and low<d<high, with '
             'sigma=d/2^(1/6) and the requested epsilon, exclusions exactly between those backbone particles.',
             'Quick: 4-residue systems with two windows and separations {1,2}; lists with repeated entries are outside the property.', '§4 C18'),
+    'C19': ('B', 'bounded exhaustive enumeration of specification strings x systems x request lists on the real AnnotateMutMod against an independent parser and residue predicate; requests carried through the real RepairGraph on shipped charmm blocks',
+            'model_checking',
+            'All 100-odd specification strings from the part menus (chain, name incl. nter/cter and a name ending in a digit, number, with and '
+            'without #) and all ordered pairs of a 12-string menu, as mutations and as modifications, plus the empty list, none and unknown '
+            'targets, on every single molecule and (quick: a covering set of) ordered pairs of 8 residue-graph shapes (paths up and down, star, '
+            'ring, isolated, non-protein, insertion codes, protein-on-lipid). Marks are compared atom by atom with an independent parser + '
+            'predicate; each request that matches nothing in the whole system must produce its own warning; unknown targets must raise. '
+            'Repair layer: 84 tripeptides of charmm blocks with mutation / terminal-modification requests through AnnotateMutMod + RepairGraph: '
+            'the named residue ends up with exactly the requested atoms and name, nothing leaks to other residues or into the force field.',
+            'Systems of <=2 molecules x <=4 residues; resid together with nter/cter, empty specifications and unmatched+unknown requests are not generated.', '§4 C19'),
     'C07': ('A+D', 'explicit-state BFS over deferred-writer histories with a dict file-system model; exhaustive crash-point/torn-write enumeration of every finalisation; audit-hook monitor over all library writers; full product of a CLI run alphabet through the script\'s own entry() bound to real sub-processes',
             'model_checking',
             'Four layers. (1) every enabled operation (open w/a/r+/wb incl. re-opens, files appearing from outside, write, close) in every '
